@@ -254,11 +254,47 @@ static void packets_child(const void *job, size_t n) {
 	res_printf("O %x %x\nC packet_cases %ld\n", from, count, cases);
 	res_finish();
 }
+/* ---------------------------------------------------------------- c19.startup: the flag comes from the CONFIGURATION
+ * Start-up against nodes that answer the feature handshake unusually — per node (master 0x03=0x14, oc1 0x03=0): as requested,
+ * the SecAck feature refused / granted differently (value flipped between 0 and non-zero), every feature answered differently, the
+ * SecAck answer sent twice, every answer sent twice — all 25 combinations; then one report of each kind from each of the three
+ * boards.  Mirrors follow the configured feature values whatever the nodes answered. */
+static int su_mode[2];
+static int su_hook(int node, const rc_msg_t *m) {
+	if (m->type != MSG_FEATURE_SET || node < 0 || node > 1 || m->dlen < 2) return 0;
+	int mode = su_mode[node]; uint8_t d[2] = {m->data[0], m->data[1]};
+	if ((mode == 1 && d[0] == 0x03) || mode == 2) d[1] = d[1] ? 0 : 1;
+	sb_send(node, MSG_FEATURE, d, 2);
+	if ((mode == 3 && d[0] == 0x03) || mode == 4) sb_send(node, MSG_FEATURE, d, 2);
+	return 1;
+}
+static void startup_child(const void *job, size_t n) {
+	vs_dev_t devs[VS_MAXDEV]; int nd; size_t pl; const uint8_t *p = job_parse(job, n, devs, &nd, &pl);
+	su_mode[0] = p[0] % 5; su_mode[1] = p[0] / 5;
+	hx_child_begin(NULL, 0, 0, NULL, 0, 0);
+	cfg_install_std(); SB.on_msg = su_hook;
+	if (hx_start_normal(0)) res_infra("normal start failed");
+	hx_quiesce();
+	uint8_t *m; while ((m = bidib_read_message())) free(m); while ((m = bidib_read_error_message())) free(m);
+	memset(&S, 0, sizeof S); S.logpos = SB.nlog; SB.on_msg = quiet_bus;
+	vs_sleep_us(2500000); hx_quiesce();
+	static const char *MN[5] = {"as requested", "0x03 answered with the opposite", "every feature answered differently", "0x03 answered twice", "every answer twice"};
+	for (int b = 0; b < NB && !res_nviol(); b++) for (int r = 0; r < R_N; r++) {
+		char what[200]; snprintf(what, sizeof what, "feature answers master: %s, oc1: %s; then %s", MN[su_mode[0]], MN[su_mode[1]], evname(b * R_N + r));
+		report(b, r, what);
+	}
+	for (int b = 0; b < NB; b++) if (S.np[b]) res_violation("mirror-missing-after-startup-variant", "%d mirror(s) outstanding for %s", S.np[b], BNAME[b]);
+	hx_emit_ledger_violations("C19");
+	hx_hash_t h; hx_hash_init(&h); for (int i = 0; i < SB.nlog; i++) if (is_mirror(SB.log[i].type)) { hx_hash_add(&h, SB.log[i].addr, 4); hx_hash_add(&h, &SB.log[i].type, 1); hx_hash_add(&h, SB.log[i].data, (size_t) SB.log[i].dlen); }
+	res_printf("O %llx %llx\nC startup_variant_reports %d\n", (unsigned long long) h.a, (unsigned long long) h.b, NB * R_N);
+	res_finish();
+}
+static size_t startup_gen(long idx, uint8_t *payload, char *human, size_t hn) { payload[0] = (uint8_t) idx; snprintf(human, hn, "feature handshake variant master=%ld oc1=%ld", idx % 5, idx / 5); return 1; }
 static size_t packets_gen(long idx, uint8_t *payload, char *human, size_t hn) {
 	int from = (int) idx * 57, count = 57; if (from + count > 399) count = 399 - from;
 	memcpy(payload, &from, 4); memcpy(payload + 4, &count, 4); snprintf(human, hn, "multi-message packets %d..%d", from, from + count - 1); return 8;
 }
-void c19_register(void) { harness_register("c19.packets", packets_child); harness_register("c19.hist", hist_child); harness_register("c19.sweep", sweep_child); harness_register("c19.sched", sched_child); }
+void c19_register(void) { harness_register("c19.packets", packets_child); harness_register("c19.hist", hist_child); harness_register("c19.sweep", sweep_child); harness_register("c19.sched", sched_child); harness_register("c19.startup", startup_child); }
 int c19_run(const char *tier) {
 	int thorough = !strcmp(tier, "thorough");
 	const char *variant = getenv("VERIF_VARIANT"); int asan = variant && !strcmp(variant, "asan");
@@ -273,6 +309,9 @@ int c19_run(const char *tier) {
 	ex_map(&sw);
 	ex_spec_t pkts = { .harness = "c19.packets", .ncases = 7, .gen = packets_gen, .label = "c19.packets" };
 	ex_map(&pkts); sw.done += pkts.done; if (!pkts.exhaustive) sw.exhaustive = 0;
+	ex_spec_t su = { .harness = "c19.startup", .ncases = 25, .gen = startup_gen, .label = "c19.startup" };
+	ex_map(&su); sw.done += su.done; if (!su.exhaustive) sw.exhaustive = 0;
+	rep_note("c19.startup: %ld feature-handshake variants (5 answer modes per SecAck-configured node), %ld reports checked afterwards", su.done, rep_get("startup_variant_reports"));
 	rep_note("c19.packets: %ld multi-message packets (every sequence of 1..3 messages over 7 kinds in one packet)", rep_get("packet_cases"));
 	uint8_t param[1] = {0}; const char *d = getenv("VERIF_DEPTH");
 	e2_spec_t s = { .harness = "c19.hist", .param = param, .nparam = 1, .nevents = EV_N, .max_depth = d ? atoi(d) : (thorough ? 7 : 5), .label = "c19.hist", .evname = evname };
